@@ -34,7 +34,7 @@ add("C05", "invariant at a hook on the real Reweighter.run: pool snapshot -> lon
 add("C06", "runtime monitor with injected randomness: systematic comb driven at every breakpoint +-1ulp / cell midpoint of its u0-partition via an np.random interposer, validated by an independent comb model; seeded calls must be one comb (feasible-offset interval); pooled multinomial counts and the arguments handed to np.random.choice; Resampler.run at temperatures from 5e-324 to 1 and posterior(resample=True) (with and without trimming)",
     "For each generated (n,w) the whole u0 interval is covered through its finite partition, so length/range/monotonicity/floor-ceil copies/zero-weight clauses are decided for every offset of that (n,w) and unbiasedness by exact integration over cells; (n,w) are sampled (400 quick / 1e4 thorough, incl. vectors of 3e3-1.2e4 weights). Multinomial clause statistical (two-stage z>5.5).",
     "Trusted: long-double cumulative sums of the reference comb; np.random.choice semantics for the multinomial scheme.")
-add("C07", "invariant at hooks: after Resampler.run / Mutator.run / every commit / sample() / posterior(), every particle row is looked up in the instrumented likelihood's evaluation log (unique ids in one-, two- and three-field blobs) and x re-derived from u; also on sampler objects that get another history loaded after they have run, with an identity prior transform that returns its argument, and with the likelihood evaluated in worker processes",
+add("C07", "invariant at hooks: after Resampler.run / Mutator.run / every commit / sample() / posterior(), every particle row is looked up in the instrumented likelihood's evaluation log (unique ids in one-, two- and three-field blobs) and x re-derived from u; half of the lattice through the public run() with the progress display on; blobs that are the likelihood's own argument, 64-bit integers or strings; also on sampler objects that get another history loaded after they have run, with an identity prior transform that returns its argument, and with the likelihood evaluated in worker processes",
     "Every particle row at every step boundary of 36 (quick) / ~370 (thorough) monitored runs over a covering array of the option lattice plus dedicated sparse-support x blobs runs (3e4-1e6 rows) is identified with the evaluation it came from; a split record cannot match the log.",
     "Trusted: purity of the harness' prior transform and likelihood; x bytes / blob ids as record identity. Known finding: all-zero-likelihood-batch.")
 add("C08", "fault enumeration: kill points before every I/O call of a checkpoint save and at byte offsets inside OS-level writes, with a real BufferedWriter over the killing raw layer and the buffer size as part of the schedule (in-process engine; strace syscall injection in thorough); digests of restored state vs digest hooked at save time; resumed runs monitored (same / larger target, final checkpoint, second generation); checkpoints written by a re-used sampler object after its history was replaced",
@@ -67,7 +67,7 @@ add("C16", "runtime monitor: real apply_boundary_conditions/check_bounds vs exac
 add("C17", "history + executable reference model: random StateManager operation sequences vs dict-of-copies model with a hostile caller overwriting every returned array (incl. 0-d arrays, read-only views of caller-owned buffers, ragged batches); sampler-level twin runs compared bitwise (incl. a likelihood that returns a view of a reused buffer); append-only monitor on real runs",
     "After every operation the manager's public answers are compared with the reference model while every array handed to the caller is overwritten; 300 (quick) / 5000 (thorough) sequences of 40 operations plus hostile-vs-untouched twin sampler runs (incl. a zero-likelihood target) in which every committed batch is re-digested after every later iteration.",
     "Trusted: reference model (30 lines); donated inputs (copy=False, from_dict) are not judged.")
-add("C18", "runtime monitor over 3-wise covering arrays of the constructor option lattice, each row in its own process under an iteration budget, postconditions against the reference model; one-factor invalid values with call counters on the instrumented user callables",
+add("C18", "runtime monitor over 3-wise covering arrays of the constructor option lattice, each row in its own process under an iteration budget, postconditions against the reference model; one-factor invalid values with call counters on the instrumented user callables; the user's callables in 13 x 5 forms (builtins, operator objects, ufunc methods, partials, instances, bound methods, lambdas)",
     "3-wise coverage (measured: 99.7% of feasible triples, 190 rows; thorough four arrays) of 16 options incl. default n_particles, integer pools, save_every, boundary kinds; 34 invalid values x context variants must be rejected before any user callable is invoked.",
     "Trusted: greedy covering-array generator (coverage of t-tuples is measured, infeasible tuples dropped).")
 add("C19", "runtime contract monitors on fit_mvstud / ModeStatistics (incl. the n_modes path with empty and singleton labels): well-posedness, metamorphic equivariance pairs each fitted under another ambient RNG state, particles squeezed to 1e-9.5 of the cube, fits on more than 2^20 rows, factor consistency, recovery on large multivariate-t samples",
